@@ -227,6 +227,7 @@ class Exploration:
         self.solver_s = 0.0
         self.wall = 0.0
         self.unknown_reasons = []
+        self.unknown_witnesses = []   # inputs of abandoned paths (best effort)
 
     def as_dict(self):
         return dict(self.__dict__)
@@ -338,6 +339,15 @@ def explore(fn, budget_s=60.0, per_path_s=20.0, max_paths=10**9, validate=None,
                 ex.unknown += 1
                 if len(ex.unknown_reasons) < 5:
                     ex.unknown_reasons.append(type(e).__name__ + ': ' + str(e)[:200])
+                if len(ex.unknown_witnesses) < 30:
+                    try:
+                        m = _model()
+                        w = {k: _peek(v, m) for k, v in args.arguments.items()}
+                        for k, v in FRESH:
+                            w[k] = _peek(v, m)
+                        ex.unknown_witnesses.append(w)
+                    except BaseException:     # noqa: best effort only
+                        pass
                 status = VerificationStatus.UNKNOWN
             _a, exhausted = space.bubble_status(CallAnalysis(status))
         if stop or exhausted:
